@@ -54,7 +54,7 @@ def fresh(E, x):
     """allocated during this call: not aliased with anything of the pre-state.  At a call site (assumed
     callee post-condition) the caller names the callee's new object with its own next allocation id."""
     if E.assuming:
-        return Sym(x.t == E.new_ref(), "bool")
+        return Sym(x.t == E.new_ref(naming=x.t), "bool")
     return Sym(x.t < 0, "bool")
 
 
